@@ -8,7 +8,9 @@ RULE = ("sweep: min_size in {0,1,2,100} x pre-existing active file in {absent, 0
         "1-5 appends; appends + restart (either mode) + appends (a second lifetime over the files left behind); and a "
         "burst of 8 barrier-released threads issuing the first appends followed by sequential appends; "
         "for half of the combinations also a history whose first record(s) hit a roller set to FAIL (Roll::roll "
-        "returns Err before touching anything): the request must not be repeated on later records. "
+        "returns Err before touching anything): the request must not be repeated on later records; "
+        "16 (thorough 24) single lifetimes of 300 and 600 appends (pre-existing file below and above min_size, delete "
+        "and window rollers). "
         "non-trivial = at least one append; distinct = distinct case line")
 ASSUMPTIONS = list(rc.COMMON_ASSUMPTIONS)
 EXHAUSTIVE = {"quick": False, "thorough": False}
@@ -71,6 +73,12 @@ def cases(rng, tier):
                                              rc.chunked(rng, rc.rec_bytes(rng, "h", rng.range(0, 4)))])
                                 ops2.append(rc.op_append(rng, "i", rng.range(0, 4)))
                             out.append([[1, m], rl, prev, a0, ops2])
+    # long lifetimes: 300 and 600 consultations of ONE trigger instance (a narrow call counter would wrap)
+    for n in (300, 600):
+        for m, presz in ((2, 1), (2, 5), (0, 0), (100, 150)):
+            for rl in ([0], [1, 0, 2, 0], [1, 1, 1, 1]) if tier == "thorough" else ([0], [1, 1, 2, rng.below(2)]):
+                ops = [rc.op_append(rng, "%d" % j, rng.choice([0, 1, 2, 3])) for j in range(n)]
+                out.append([[1, m], rl, [1, rc.rec_bytes(rng, "pre", presz)], 1, ops])
     return out
 
 
